@@ -27,6 +27,10 @@ def loop_templates():
     T.append(("loop_call_with_map_read", P, "i32", "s := i32(0)\n\tfor i := i32(0); i < n; i++ {\n\t\ts += vtMapUser(x, i)\n\t}\n\treturn s"))
     T.append(("loop_call_with_type_assert", P, "i32", "s := i32(0)\n\tfor i := i32(0); i < n; i++ {\n\t\ts += vtAssertUser(x + i)\n\t}\n\treturn s"))
     T.append(("loop_range_over_map", P, "i32", "s := i32(0)\n\tfor i := i32(0); i < n; i++ {\n\t\tm := map[i32]string{x: \"a\", i: \"bc\"}\n\t\tfor k, v := range m {\n\t\t\ts += k + i32(len(v))\n\t\t}\n\t}\n\treturn s"))
+    T.append(("loop_overwrite_pointer_with_nil", P, "i32", "s := i32(0)\n\tfor i := i32(0); i < n; i++ {\n\t\ta := &vtNode{v: x}\n\t\ta.next = &vtNode{v: i}\n\t\ts += a.next.v\n\t\ta.next = nil\n\t}\n\treturn s"))
+    T.append(("loop_overwrite_string_with_literal", P, "i32", "s := i32(0)\n\tfor i := i32(0); i < n; i++ {\n\t\tp := &vtNamed{}\n\t\tp.name = string([]byte{byte(x), byte(i)})\n\t\ts += i32(len(p.name))\n\t\tp.name = \"lit\"\n\t\ts += i32(len(p.name))\n\t}\n\treturn s"))
+    T.append(("loop_overwrite_struct_with_zero", P, "i32", "s := i32(0)\n\tfor i := i32(0); i < n; i++ {\n\t\tp := &vtNamed{name: string([]byte{byte(x)}), items: []i32{i, x}}\n\t\ts += p.items[0]\n\t\t*p = vtNamed{}\n\t\ts += i32(len(p.items))\n\t}\n\treturn s"))
+    T.append(("loop_overwrite_slice_element_with_nil", P, "i32", "s := i32(0)\n\tfor i := i32(0); i < n; i++ {\n\t\tb := [][]i32{{x}, {i}}\n\t\ts += b[1][0]\n\t\tb[1] = nil\n\t\tb[0] = nil\n\t}\n\treturn s"))
     T.append(("loop_string_reassign", P, "i32", "t := string([]byte{byte(x)})\n\tfor i := i32(0); i < n; i++ {\n\t\tt = string([]byte{t[0], byte(i)})\n\t}\n\treturn i32(len(t)) + i32(t[0])"))
     return T
 
@@ -50,6 +54,16 @@ def ref_templates():
 
 
 C12_DECLS = """
+type vtNode :struct {
+	next: *vtNode
+	v:    i32
+}
+
+type vtNamed :struct {
+	name:  string
+	items: []i32
+}
+
 func vtPair(v: i32) => (string, []i32) {
 	return string([]byte{byte(v), 'n'}), []i32{v, v + 1}
 }
